@@ -167,7 +167,8 @@ Definition of_entries (c : cache) : sx :=
 
 (* (1 getter (ts...) props)  -> (model, model with initial_value removed, number of usable samples,
                                  (spec values at the dumps: clean-up + interpolation written independently))
-   (2 cache ops)             -> ((results...) (final entries: name, kind, values) final_store)
+   (2 cache ops)             -> ((results...) (final entries: name, kind, values) final_store)   [the machine WITHOUT
+                                 in-place writes: what the property demands, whatever virtual_ipv says]
                                  virtual sensors: fid 0 = mjd, fid 1 = deg2rad of the first source
    (3 c (nodes...) (xs...))  -> (interp of the scaled nodes, scaled interp of the nodes)   c = pi64 / 180 when c = () *)
 Definition wire_128 (x : sx) : sx :=
@@ -178,7 +179,7 @@ Definition wire_128 (x : sx) : sx :=
          of_nat (List.length (usable g' p'));
          L (map (fun t => of_qn (spec_numeric g' (offset_of p') t)) tq)]
   | L [I 2%Z; c; ops] =>
-      let '(c', rs) := run_v arith_vf virtual_ipv (to_cache c) (map to_op (to_list ops)) in
+      let '(c', rs) := run_v arith_vf false (to_cache c) (map to_op (to_list ops)) in
       L [L (map of_res_big rs); of_entries c'; of_store (c_store c')]
   | L [I 3%Z; c; nodes; xs] =>
       let k := match c with L [] => pi64 / 180 | _ => to_Q c end in
